@@ -265,7 +265,9 @@ def replay_open(res, repo):
         return
     lines = [l for l in p.stdout.splitlines() if l.startswith("C04-REPLAY-VIOLATION:")]
     for name, info in res["open"].items():
-        if "/emit/constant" in name or "string_constant" in name:
+        if "define-name-and-value" in name:
+            mine = [l for l in lines if "does not compile" in l or "message id" in l or "constant " in l or "version hash" in l]
+        elif "/emit/constant" in name or "string_constant" in name:
             mine = [l for l in lines if "constant " in l]
         elif "msg_type_id" in name or "host_id" in name or "module_id" in name:
             mine = [l for l in lines if "message id" in l]
